@@ -49,6 +49,7 @@ EXTENDS Ws, Json
 
 CONSTANTS
   MCProto, MCInitFn, MCInitTimeout, MCKA, MCPO, MCPP, MCMissingPongOk, MCCancel,
+  MCDetached,                    \* InitFunc returns a context that does NOT descend from the request context
   AllInsts, Ids, IdOfInst,       \* instance names, ids, instance -> id
   InstOrder,                     \* sequence of all instance names; earlier = used first
   Alphabet,                      \* client message classes used in this configuration
@@ -73,14 +74,15 @@ VARIABLES
   fnres, reason,\* scenario choices: what InitFunc answers; whether its context carries a close reason
   ticks, recvPong, deadline,
   viol,         \* names of violated Ws guards
-  act           \* last action (observation only)
+  act,          \* last action (observation only)
+  hist          \* Sync only: the environment's decisions so far, each with the quiescent observation it was taken in
 
 Tickers == {"KA", "PO", "PP"}
 Procs == {"R", "C"} \cup Tickers \cup AllInsts
 
 ivars == <<inbox, nsent, cgone, prog, sub, mu, active, closed, connClosed, ccancel,
            srvCancelled, runCancelled, reqCancelled, fnres, reason, ticks, recvPong, deadline>>
-vars == <<w, c, ivars, viol, act>>
+vars == <<w, c, ivars, viol, act, hist>>
 view == <<w, c, ivars, viol>>
 
 Op(t, f, id, i, k) == [t |-> t, f |-> f, id |-> id, i |-> i, k |-> k]
@@ -99,7 +101,9 @@ Goto(p, s) == prog' = [prog EXCEPT ![p] = s]
 Replace(p, s) == prog' = [prog EXCEPT ![p] = s \o Tail(prog[p])]
 
 Range(f) == {f[x] : x \in DOMAIN f}
-Cancelled(i) == i \in ccancel \/ srvCancelled \/ reqCancelled
+\* an operation context is done once its own cancel func was called (stop, close), or an ancestor is
+\* done: the context InitFunc returned (server-side cancel) and - unless detached - the request context
+Cancelled(i) == i \in ccancel \/ srvCancelled \/ (reqCancelled /\ ~MCDetached)
 CtxDone == runCancelled \/ srvCancelled            \* the run() context (tickers, closeOnCancel)
 
 NoOp(f) == IF c.proto = "gws" THEN f \in {"ping", "pong"} ELSE f \in {"ka", "cerr"}
@@ -121,7 +125,7 @@ Init ==
   /\ srvCancelled = FALSE /\ runCancelled = FALSE /\ reqCancelled = FALSE
   /\ reason \in (IF MCInitFn /\ MCCancel THEN BOOLEAN ELSE {FALSE})
   /\ ticks = 0 /\ recvPong = FALSE
-  /\ viol = {} /\ act = [name |-> "Init", id |-> "", i |-> "", k |-> 0]
+  /\ viol = {} /\ act = [name |-> "Init", id |-> "", i |-> "", k |-> 0] /\ hist = <<>>
   /\ IF PreAcked
        THEN /\ w = [W0 EXCEPT !.first = "init", !.initFn = (IF MCInitFn THEN "accept" ELSE "none"), !.acks = 1]
             /\ prog = RunProgs /\ fnres = "accept"
@@ -132,12 +136,28 @@ Init ==
             /\ deadline = FALSE
 
 \* ------------------------------------------------------------ quiescence --
-Quiet ==
-  /\ mu = "free" /\ \A p \in Procs : sub[p] = "-"
-  /\ prog["R"] = <<>> \/ (Head1("R").t \in {"rdinit", "read"} /\ inbox = <<>> /\ ~connClosed)
-  /\ prog["C"] = <<>> \/ (Head1("C").t = "wait" /\ ~CtxDone)
-  /\ \A t \in Tickers : prog[t] = <<>> \/ (Head1(t).t = "tick" /\ ~CtxDone)
-  /\ \A i \in AllInsts : prog[i] = <<>> \/ (Head1(i).t = "call" /\ ~Cancelled(i))
+\* CanStep(p): process p has an enabled step of its own (not an environment decision).
+\* (IF, not \/ : inside an action TLC explores both disjuncts, also the one applying Head to <<>>)
+CanStep(p) ==
+  IF prog[p] = <<>> THEN FALSE
+  ELSE LET t == Head1(p).t IN
+       CASE t = "w"     -> sub[p] = "in" \/ mu = "free"
+         [] t = "close" -> sub[p] # "-" \/ mu = "free"
+         [] t = "rdinit" -> inbox # <<>>
+         [] t = "read"  -> connClosed \/ inbox # <<>>
+         [] t \in {"reg", "look", "pongcs", "pingcs", "del"} -> mu = "free"
+         [] t = "call"  -> Cancelled(p)
+         [] t \in {"wait", "tick"} -> CtxDone
+         [] OTHER -> TRUE          \* initfn setup cancel ret start
+Quiet == \A p \in Procs : ~CanStep(p)
+
+\* With Sync the system is also scheduled deterministically (the first process
+\* of ProcOrder that can step does): the state graph is then the tree of the
+\* environment's decisions with ONE canonical reaction each, small enough to
+\* be exported edge by edge and replayed.
+ProcOrder == <<"R">> \o InstOrder \o <<"C", "KA", "PO", "PP">>
+PPos(p) == CHOOSE n \in 1..Len(ProcOrder) : ProcOrder[n] = p
+MayRun(p) == Sync => \A n \in 1..Len(ProcOrder) : n < PPos(p) => ~CanStep(ProcOrder[n])
 Env == Sync => Quiet
 
 \* -------------------------------------------------------- write and close --
@@ -285,8 +305,8 @@ Reg ==
   /\ LET o == Head1("R") IN
        /\ active' = [x \in DOMAIN active \cup {o.id} |-> IF x = o.id THEN o.i ELSE active[x]]
        /\ prog' = [prog EXCEPT !["R"] = Tail(prog["R"]), ![o.i] = <<O("start"), O("call")>>]
-       \* (observation only: an entry of a registered operation was overwritten)
-       /\ w' = (IF o.id \in DOMAIN active THEN [w EXCEPT !.devs = w.devs \cup {"dupreg"}] ELSE w)
+       \* (observation only: the entry of an operation that has not been terminated towards the client is overwritten)
+       /\ w' = (IF o.id \in DOMAIN active /\ w.I[active[o.id]].cp = 0 /\ w.I[active[o.id]].er = 0 THEN [w EXCEPT !.devs = w.devs \cup {"dupreg"}] ELSE w)
        /\ A("Reg", o.id, o.i, 0)
   /\ UNCHANGED <<c, viol, inbox, nsent, cgone, sub, mu, closed, connClosed, ccancel, srvCancelled, runCancelled,
                  reqCancelled, fnres, reason, ticks, recvPong, deadline>>
@@ -449,27 +469,41 @@ ServerCancel ==
                  reqCancelled, fnres, reason, ticks, recvPong, deadline>>
 
 System ==
-  \/ \E p \in Procs : Lock(p) \/ Send(p) \/ CloseTry(p) \/ CloseCS(p) \/ CloseConn(p) \/ CloseFn(p)
-  \/ RdInit \/ InitFnCall \/ Setup \/ Read \/ Reg \/ Look \/ CancelOp \/ PongCS \/ Ret
-  \/ \E i \in AllInsts : SrcStart(i) \/ SrcSeesCancel(i) \/ Del(i)
-  \/ Watch \/ PingCS \/ \E t \in Tickers : TickStop(t)
+  \E p \in Procs :
+     /\ MayRun(p)
+     /\ \/ Lock(p) \/ Send(p) \/ CloseTry(p) \/ CloseCS(p) \/ CloseConn(p) \/ CloseFn(p)
+        \/ p = "R" /\ (RdInit \/ InitFnCall \/ Setup \/ Read \/ Reg \/ Look \/ CancelOp \/ PongCS \/ Ret)
+        \/ p \in AllInsts /\ (SrcStart(p) \/ SrcSeesCancel(p) \/ Del(p))
+        \/ p = "C" /\ Watch
+        \/ p = "PP" /\ PingCS
+        \/ p \in Tickers /\ TickStop(p)
 
 Environment ==
   \/ Client \/ ServerCancel \/ InitTimeout \/ Deadline
   \/ \E t \in Tickers : Tick(t)
   \/ \E i \in AllInsts : SrcEmit(i) \/ \E xk \in SrcKinds : SrcEnd(i, xk)
 
-Next == System \/ Environment
+\* what the harness can observe and compare (per instance: Source state, frames received)
+Proj ==
+  [I |-> [i \in Insts(w) |-> [src |-> w.I[i].src, xk |-> w.I[i].xk, em |-> w.I[i].em, nx |-> w.I[i].nx,
+                              er |-> w.I[i].er, cp |-> w.I[i].cp]],
+   acks |-> w.acks, closeCalls |-> w.closeCalls, cend |-> w.cend, initFn |-> w.initFn]
+
+EnvNames == {"CSend", "SrvCancel", "InitTimeout", "Deadline", "Tick", "SrcEmit", "SrcEnd"}
+Next ==
+  /\ System \/ Environment
+  /\ hist' = (IF Sync /\ act'.name \in EnvNames THEN Append(hist, [a |-> act', o |-> Proj]) ELSE hist)
 
 \* gqlgen's own steps are weakly fair; so is (by the property's assumption)
 \* a Source that has been cancelled.  The environment is not.
+fvars == <<w, c, ivars, viol, act>>     \* (hist is written by Next only)
 Fairness ==
-  /\ \A p \in Procs : WF_vars(Lock(p)) /\ WF_vars(Send(p)) /\ WF_vars(CloseTry(p)) /\ WF_vars(CloseCS(p))
-                      /\ WF_vars(CloseConn(p)) /\ WF_vars(CloseFn(p))
-  /\ WF_vars(RdInit) /\ WF_vars(InitFnCall) /\ WF_vars(Setup) /\ WF_vars(Read) /\ WF_vars(Reg) /\ WF_vars(Look)
-  /\ WF_vars(CancelOp) /\ WF_vars(PongCS) /\ WF_vars(Ret) /\ WF_vars(Watch) /\ WF_vars(PingCS)
-  /\ \A t \in Tickers : WF_vars(TickStop(t))
-  /\ \A i \in AllInsts : WF_vars(SrcStart(i)) /\ WF_vars(SrcSeesCancel(i)) /\ WF_vars(Del(i))
+  /\ \A p \in Procs : WF_fvars(Lock(p)) /\ WF_fvars(Send(p)) /\ WF_fvars(CloseTry(p)) /\ WF_fvars(CloseCS(p))
+                      /\ WF_fvars(CloseConn(p)) /\ WF_fvars(CloseFn(p))
+  /\ WF_fvars(RdInit) /\ WF_fvars(InitFnCall) /\ WF_fvars(Setup) /\ WF_fvars(Read) /\ WF_fvars(Reg) /\ WF_fvars(Look)
+  /\ WF_fvars(CancelOp) /\ WF_fvars(PongCS) /\ WF_fvars(Ret) /\ WF_fvars(Watch) /\ WF_fvars(PingCS)
+  /\ \A t \in Tickers : WF_fvars(TickStop(t))
+  /\ \A i \in AllInsts : WF_fvars(SrcStart(i)) /\ WF_fvars(SrcSeesCancel(i)) /\ WF_fvars(Del(i))
 
 Spec == Init /\ [][Next]_vars /\ Fairness
 
@@ -510,18 +544,10 @@ StopCancelsI == \A i \in AllInsts : (StopSeen(i) /\ (\A n \in 1..Len(inbox) : in
 \* the same, restricted to behaviours in which no two operations of one id ever overlapped
 StopCancelsNoDup == "dupreg" \in w.devs \/ StopCancelsI
 
-\* ------------------------------------------------------------ edge export --
-Proj ==
-  [I |-> [i \in Insts(w) |-> [src |-> w.I[i].src, xk |-> w.I[i].xk, em |-> w.I[i].em, nx |-> w.I[i].nx,
-                              er |-> w.I[i].er, cp |-> w.I[i].cp]],
-   acks |-> w.acks, closeCalls |-> w.closeCalls, cend |-> w.cend, initFn |-> w.initFn,
-   done |-> AllDone, fnres |-> fnres, reason |-> reason, nsent |-> nsent, ticks |-> ticks,
-   act |-> DOMAIN active, cc |-> ccancel, sc |-> srvCancelled]
-ProjN ==
-  [I |-> [i \in Insts(w') |-> [src |-> w'.I[i].src, xk |-> w'.I[i].xk, em |-> w'.I[i].em, nx |-> w'.I[i].nx,
-                               er |-> w'.I[i].er, cp |-> w'.I[i].cp]],
-   acks |-> w'.acks, closeCalls |-> w'.closeCalls, cend |-> w'.cend, initFn |-> w'.initFn,
-   done |-> (\A p \in Procs : prog'[p] = <<>>), fnres |-> fnres', reason |-> reason', nsent |-> nsent', ticks |-> ticks',
-   act |-> DOMAIN active', cc |-> ccancel', sc |-> srvCancelled']
-EmitEdge == PrintT(ToJson([s |-> Proj, a |-> act', t |-> ProjN, q |-> Quiet', q0 |-> Quiet]))
+\* ---------------------------------------------------------- script export --
+\* (Sync, -workers 1, as an INVARIANT: evaluated once per distinct state.)  Every
+\* quiescent state prints the environment decisions that led to it, the
+\* observation predicted before each of them, and the final observation.
+EmitHist ==
+  (Sync /\ Quiet) => PrintT(ToJson([h |-> hist, o |-> Proj, fnres |-> fnres, reason |-> reason, done |-> AllDone]))
 =============================================================================
